@@ -33,7 +33,7 @@ def spec(th, seed):
         'rule': 'one operation table (vec1-4 x float/double/int/uint operators, common, geometric, integer functions; mat2/3/4 and rectangular products, transpose, determinant, inverse; quaternion algebra; aligned<->packed and int<->float conversions) evaluated in every build on aligned-qualified (SIMD) operands and on packed_highp (generic C++ = the GLM_FORCE_PURE code) operands built from the same bits: special-value lattice rotations, ties k+0.5, |x|>=2^23, random log-uniform/small-integer/uniform values; aligned vec3 operands are built both by constructor and by member writes over a buffer pre-filled with NaN/inf/0/1/all-ones so the hidden 4th lane is adversarial; faceforward inputs with dot(Nref,I)==0 exactly, refract on both sides of k=0',
         'assumptions': [
             'reference side = packed_highp types inside the same GLM_FORCE_INTRINSICS build: they run the generic C++ code that GLM_FORCE_PURE compiles for every type',
-            'classes: identical value (NaN==NaN; +0 and -0 are the same value, zero-sign differences are counted as observations) for operators, comparison, selection, conversion, rounding-to-integer, sqrt, transpose, matrixCompMult, outerProduct, quaternion +,-,scalar; |aligned-pure| <= 8*u*S (S = largest intermediate term computed in long double) for mod, mix, smoothstep, fma, dot, length, distance, normalize, reflect, refract, cross, products, determinant, inverse (cofactor-scheme bound), quaternion products; refract/faceforward branch must be the same unless k is within its own rounding error of 0; aligned_lowp float may use rcp/rsqrt: relative 2^-11',
+            'classes: identical value (NaN==NaN; +0 and -0 are the same value, zero-sign differences are counted as observations) for operators, comparison, selection, conversion, rounding-to-integer, sqrt, transpose, matrixCompMult, outerProduct, quaternion +,-,scalar; |aligned-pure| <= 8*u*S (S = largest intermediate term computed in long double) for mod, mix, smoothstep, fma, dot, length, distance, normalize, reflect, refract, cross, products, determinant, inverse (cofactor-scheme bound), quaternion products; refract/faceforward branch must be the same unless k is within its own rounding error of 0; aligned_lowp float may use rcp/rsqrt: relative 2^-11 per hardware approximation, up to three composed in one result',
             'domains: divisors != 0, shift counts < 32, signed operands small enough not to overflow, no NaN for min/max/clamp/step/sign, quiet NaNs only, edge0<edge1, matrices inverted only if |det| > 1e-3 * sum|terms|, quaternion norms in the normal range',
             'not instantiable on this tree (compile errors inside glm, not judged): aligned uvec4 bitCount/bitfieldReverse/findMSB (func_integer_simd.inl), aligned ivec4/uvec4 min/max/clamp below -msse4.1, AVX levels without -mfma',
             'NEON paths cannot be executed on this machine',
